@@ -618,8 +618,8 @@ def pools_strategy(tier):
         st.tuples(st.just("switch")),
     )
     prof = st.lists(st.dictionaries(st.sampled_from(TYPES), st.integers(1, 3), min_size=1, max_size=2), min_size=1, max_size=3)
-    return st.tuples(pools, st.lists(prof, min_size=6, max_size=6), st.lists(op, min_size=3, max_size=30)).map(
-        lambda t: {"pools": t[0], "task_strategies": t[1], "ops": _listify(t[2])}
+    return st.tuples(pools, st.lists(prof, min_size=6, max_size=6), st.lists(op, min_size=3, max_size=30), st.sampled_from([False, False, True])).map(
+        lambda t: {"pools": t[0], "task_strategies": t[1], "ops": _listify(t[2]), "machine_local_ids": t[3]}
     )
 
 
@@ -641,7 +641,10 @@ def exec_pools(case):
     for pi, ws in enumerate(case["pools"]):
         workers = []
         for wi, capd in enumerate(ws):
-            workers.append(Worker(name=f"P{pi}W{wi}", resources=Resources({Resource(name=t): q for t, q in capd.items()})))
+            # machine-local ids ("GPU:0" on every machine, as a worker description may write them) give the workers of a
+            # pool identical Resource keys; the default is a fresh uuid per resource
+            mk = (lambda t: Resource(name=t, _id="0")) if case.get("machine_local_ids") else (lambda t: Resource(name=t))
+            workers.append(Worker(name=f"P{pi}W{wi}", resources=Resources({mk(t): q for t, q in capd.items()})))
         pools.append(WorkerPool(name=f"P{pi}", workers=workers))
     live = [WorkerPools(pools)]
     # model: list over objects of {task idx: (pool idx, worker idx, demand)}
@@ -671,6 +674,16 @@ def exec_pools(case):
         snap = {"placed": sorted(tasks.index(t) for t in wps.get_placed_tasks())}
         for pi, wp in enumerate(wps.worker_pools):
             snap[("pool_placed", pi)] = sorted(tasks.index(t) for t in wp.get_placed_tasks())
+            pooled = wp.resources  # the pool-level ledger: sum of its workers' Resources
+            util = {}
+            for row in wp.get_utilization():
+                name, _rid, alloc, avail = row.split(",")
+                a0, v0 = util.get(name, (0, 0))
+                util[name] = (a0 + int(float(alloc)), v0 + int(float(avail)))
+            for t in TYPES:
+                r = Resource(name=t, _id="any")
+                snap[("pool_ledger", pi, t)] = (pooled.get_available_quantity(r), pooled.get_allocated_quantity(r), pooled.get_total_quantity(r))
+                snap[("pool_utilization", pi, t)] = util.get(t, (0, 0))
             for wi, w in enumerate(wp.workers):
                 for t in TYPES:
                     r = Resource(name=t, _id="any")
@@ -682,6 +695,11 @@ def exec_pools(case):
         snap = {"placed": sorted(m)}
         for pi, ws in enumerate(case["pools"]):
             snap[("pool_placed", pi)] = sorted(ti for ti, (p, w, d) in m.items() if p == pi)
+            for t in TYPES:
+                c = sum(capd.get(t, 0) for capd in ws)
+                o_ = sum(occ(m, pi, wi).get(t, 0) for wi in range(len(ws)))
+                snap[("pool_ledger", pi, t)] = (c - o_, o_, c)
+                snap[("pool_utilization", pi, t)] = (o_, c - o_)
             for wi, capd in enumerate(ws):
                 o = occ(m, pi, wi)
                 for t in TYPES:
